@@ -90,10 +90,14 @@ def is_array(kind):
     return kind[0] in ("vec", "mat", "nvec", "nmat")
 
 
+TINY = [2e-10, -5e-12, 1e-09, 3e-11, 0.5, 7e-10, -4.0, 8e-13, 6e-10, 2.5, 9e-12, 1e-10, 4e-11, 3.0, 5e-10, 1.5]
+_pool2 = [SECOND]
+
+
 def expected_elementwise(op, k1, k2):
     """-> ('reject',) or ('ok', ndarray, index names)"""
     a = np.array(values(k1, PRIMES), dtype=float)
-    b = np.array(values(k2, SECOND), dtype=float)
+    b = np.array(values(k2, _pool2[0]), dtype=float)
     if is_array(k1) and is_array(k2):
         if index_names(k1) != index_names(k2):
             return ("reject",)
@@ -170,7 +174,16 @@ def extra_entries(h, names):
     return False
 
 
-def run_binary(op, k1, k2, holder):
+def run_binary(op, k1, k2, holder, pool2="second"):
+    from BPTK_Py import Model
+    _pool2[0] = TINY if pool2 == "tiny" else SECOND
+    try:
+        return _run_binary(op, k1, k2, holder)
+    finally:
+        _pool2[0] = SECOND
+
+
+def _run_binary(op, k1, k2, holder):
     from BPTK_Py import Model
     m = Model(starttime=0, stoptime=3, dt=1, name="arr")
     if op == "dot":
@@ -181,7 +194,7 @@ def run_binary(op, k1, k2, holder):
         exp = ("ok", np.maximum(exp[1], 0.0), exp[2])
     try:
         x = make_operand(m, "x", k1, PRIMES)
-        y = make_operand(m, "y", k2, SECOND)
+        y = make_operand(m, "y", k2, _pool2[0])
         if op == "dot":
             if not hasattr(x, "dot"):
                 return "rejected", None
@@ -396,7 +409,7 @@ def _work(part):
     for c in part:
         try:
             if c[0] == "bin":
-                out.append(run_binary(c[1], tuple(c[2]), tuple(c[3]), c[4]))
+                out.append(run_binary(c[1], tuple(c[2]), tuple(c[3]), c[4], c[5] if len(c) > 5 else "second"))
             elif c[0] == "chain":
                 out.append(run_chain(c[1], c[2], tuple(c[3]), tuple(c[4]), c[5], c[6]))
             else:
@@ -417,6 +430,13 @@ def cases(tier):
                     continue
                 for holder in ("converter", "flow", "stock"):
                     out.append(["bin", op, list(k1), list(k2), holder])
+    # the same element-wise operators with a second operand of very small magnitude (divisors of 1e-9 and below)
+    for op in ("/", "*", "-"):
+        for k1 in ks:
+            for k2 in ks:
+                if not is_array(k1) and not is_array(k2):
+                    continue
+                out.append(["bin", op, list(k1), list(k2), "converter", "tiny"])
     # chained operations: the left/right operand of the second operator is the *result* of the first
     for op1 in ("+", "-", "*", "/", "dot"):
         for op2 in ("+", "-", "*", "/"):
@@ -451,7 +471,7 @@ def run(ctx):
                 if c[0] == "chain":
                     sig = "C10/%s/(%s %s %s) %s %s/%s/%s" % (detail["clause"], "-".join(map(str, c[3])), c[1], "-".join(map(str, c[3])), c[2], "-".join(map(str, c[4])), c[5], "left" if c[6] else "right")
                 elif c[0] == "bin":
-                    sig = "C10/%s/%s/%s x %s/%s" % (detail["clause"], c[1], "-".join(map(str, c[2])), "-".join(map(str, c[3])), c[4])
+                    sig = "C10/%s/%s/%s x %s/%s%s" % (detail["clause"], c[1], "-".join(map(str, c[2])), "-".join(map(str, c[3])), c[4], "/tiny-values" if len(c) > 5 else "")
                 else:
                     sig = "C10/%s/%s/%s/%s/%s" % (detail["clause"], c[1], "-".join(map(str, c[2])), c[3], c[4])
                 ctx.violation(sig, {"case": c}, detail)
